@@ -46,7 +46,7 @@ class P:
     exhaustive = True
     rule = ("full product {14 operators} x {unset,null,non-null} x {ordinary, positional $1, $10, specials} x {unquoted, double-quoted} x "
             "{13 operator words: literal, empty, quoted, nested expansion, patterns, tilde, nested assignment, arithmetic, bad arithmetic} x "
-            "{nounset on/off} x {5 IFS settings} with 12 values; plus $@/$*/${#@}/${#*} x quoting x 0..3 positional parameters x IFS; plus random. "
+            "{nounset on/off} x {5 IFS settings} with 12 values; plus $@/$*/${#@}/${#*}/${@#w}.. (removal operators per parameter) x quoting x 0..3 positional parameters x IFS; plus random. "
             "Non-trivial = has an operator or is $@/$*; distinct cases counted")
     assumptions = ["user.Lookup answered from the harness' probe of 'root' and a non-existing name (oracle)", "pathname expansion disabled"]
 
@@ -85,9 +85,12 @@ class P:
         # $@ and $*
         at = []
         for name, quoted, n, ifs, nounset in itertools.product("@*", (False, True), range(0, 4), IFSS + [":x"], (False, True)):
-            for vals in (["a", "b c", ""], ["", "x", "y"], ["日", "q", "r"]):
+            for vals in (["a", "b c", ""], ["", "x", "y"], ["日", "q", "r"], ["xa", "xbx", "cx"]):
                 args = ["sh"] + vals[:n]
-                for pe in (X.P(name), X.P(name, "#", None), X.P(name, ":-", [X.L("d")]), X.P(name, "+", [X.L("alt")])):
+                for pe in (X.P(name), X.P(name, "#", None), X.P(name, ":-", [X.L("d")]), X.P(name, "+", [X.L("alt")]),
+                           # the removal operators apply to each positional parameter in turn
+                           X.P(name, "#", [X.L("x")]), X.P(name, "##", [X.L("*b")]), X.P(name, "%", [X.L("x")]), X.P(name, "%%", [X.L("b*")]),
+                           X.P(name, "#", [X.L("?")]), X.P(name, "%", [])):
                     parts = [X.Q('"', pe)] if quoted else [pe]
                     at.append(X.case(args, X.NOGLOB | (X.NOUNSET if nounset else 0), {"IFS": ifs}, 0, parts))
                     # embedded: "x$@y"
